@@ -218,10 +218,14 @@ Definition call_step (cn : conn) (i : sid) (oc : option call) (e : event) : cres
       (* process_request_received: create_stream, register (overwrites), handler.accept *)
       match c_side cn with
       | Server => same (Some (new_call (Some hs) false true))
-      | Client => mkCres None [ORst i] false true
-          (* client Handler.accept refuses the stream: stream.reset_nowait(REFUSED_STREAM); release_stream()
+      | Client => mkCres None [] false true
+          (* client Handler.accept refuses the stream:
+               if stream.closable: stream.reset_nowait(REFUSED_STREAM)
+               release_stream()
              -- the entry just registered (overwriting any older one with that id) is popped again,
-             stream_close_waiter is set, nothing is queued so nothing is credited *)
+             stream_close_waiter is set, nothing is queued so nothing is credited.  Whether the RST_STREAM
+             goes out depends on h2's state (`closable`), which is not part of this model: when it does,
+             it is the separate local action ACancel i (h2.reset_stream), which changes no component *)
       end
   | EResponse _ hs =>
       match oc with Some c => same (Some (set_headers hs c)) | None => same None end
